@@ -238,4 +238,105 @@ Proof.
   destruct (V _ Hv2) as (c & mc & -> & Hmc). apply (Hvis (S (rank c))); [lia | exact Hv2].
 Qed.
 
+(* ---------------------------------------------------------------- real snapshots (fix e43c20c) *)
+(* A memo that the snapshot serialises with a TRACKED origin lost no untracked dependency: the
+   side condition of [flatten_sound] holds of every such memo by construction. *)
+Lemma snap_memo_tracked (fuel : nat) q m' :
+  snap_memo pfam mm fuel q = Some m' -> m_untracked m' = false ->
+  exists m, mm q = Some m /\ m_untracked m = false /\
+            lost_untracked pfam mm fuel (m_edges m) = false /\
+            m_edges m' = flatten pfam mm fuel (m_edges m) /\
+            m_val m' = m_val m /\ m_verified m' = m_verified m /\ m_changed m' = m_changed m /\
+            m_dur m' = m_dur m.
+Proof.
+  unfold snap_memo. destruct (mm q) as [m|]; [|discriminate].
+  destruct (m_val m) eqn:Hv; [|discriminate]. destruct (pfam (fst q)); [|discriminate].
+  intros E Hu. injection E as <-. cbn in Hu. apply orb_false_iff in Hu. destruct Hu as (Hu1 & Hu2).
+  exists m. cbn. rewrite Hv. repeat split; assumption.
+Qed.
+
+(* ... hence the flattening lemma without side condition, for the memos of a real snapshot *)
+Theorem flatten_sound_snapshot (fuel : nat) q m' :
+  (forall p, (S (rank p) < fuel)%nat) ->
+  snap_memo pfam mm fuel q = Some m' -> m_untracked m' = false ->
+  (forall x, In x (m_edges m') -> ok_edge x) ->
+  exists m, mm q = Some m /\ m_untracked m = false /\ forall e, In e (m_edges m) -> ok_edge e.
+Proof.
+  intros Hf Hs Hu Hok.
+  destruct (snap_memo_tracked fuel q m' Hs Hu) as (m & Hm & Hum & Hl & He & _).
+  exists m. split; [exact Hm|]. split; [exact Hum|].
+  apply (flatten_sound fuel (m_edges m)); [| exact Hl | now rewrite <- He].
+  intros e Hin. split.
+  - destruct e as [i|c]; cbn; [specialize (Hf q); lia | apply Hf].
+  - destruct e as [i|c]; cbn; [exact I | exact (edges_have_memos q m c Hm Hin)].
+Qed.
+
 End Flatten.
+
+(* ---------------------------------------------------------------- serialised origins *)
+Section Persistable.
+Variable pfam : N -> bool.
+
+(* an edge that is serialised directly: an input field or a persisted function *)
+Definition persistable (e : edge) : bool :=
+  match e with EIn _ => true | EQ q => pfam (fst q) end.
+
+Definition all_persistable (l : list edge) : Prop := forall e, In e l -> persistable e = true.
+
+Lemma all_persistable_add l e : all_persistable l -> persistable e = true -> all_persistable (add_edge l e).
+Proof. intros A B x Hx. apply In_add_edge in Hx. destruct Hx as [Hx| ->]; [now apply A | exact B]. Qed.
+
+Lemma collect_out_persistable mm fuel : forall e out vis,
+  all_persistable out -> all_persistable (fst (collect mm fuel e (out, vis))).
+Proof.
+  induction fuel as [|fuel IH]; intros e out vis A; [exact A|].
+  cbn [collect fst snd]. destruct e as [i|g].
+  - now apply all_persistable_add.
+  - destruct (mm g) as [m|]; [|exact A].
+    assert (G : forall es acc, all_persistable (fst acc) ->
+              all_persistable (fst (fold_left (fun acc e2 =>
+                 if mem_edge e2 (snd acc) then acc else if mem_edge e2 (fst acc) then acc
+                 else collect mm fuel e2 acc) es acc))).
+    { induction es as [|e2 es IHes]; intros acc Ha; [exact Ha|]. cbn [fold_left]. apply IHes.
+      destruct (mem_edge e2 (snd acc)); [exact Ha|]. destruct (mem_edge e2 (fst acc)); [exact Ha|].
+      destruct acc as [o v]. now apply IH. }
+    now apply G.
+Qed.
+
+(* every edge of a flattened origin is serialised directly ... *)
+Theorem flatten_persistable mm fuel edges : all_persistable (flatten pfam mm fuel edges).
+Proof.
+  unfold flatten, flatten_full.
+  assert (G : forall es acc, all_persistable (fst acc) ->
+            all_persistable (fst (fold_left (flatten_step pfam mm fuel) es acc))).
+  { induction es as [|e es IHes]; intros acc Ha; [exact Ha|]. cbn [fold_left]. apply IHes.
+    unfold flatten_step. destruct e as [i|q].
+    - now apply all_persistable_add.
+    - destruct (pfam (fst q)) eqn:P; [now apply all_persistable_add|].
+      destruct acc as [o v]. now apply collect_out_persistable. }
+  apply G. intros e [].
+Qed.
+
+(* ... and flattening an origin all of whose edges are serialised directly expands nothing *)
+Lemma flatten_full_persistable mm fuel edges :
+  all_persistable edges -> snd (flatten_full pfam mm fuel edges) = [].
+Proof.
+  unfold flatten_full.
+  assert (G : forall es acc, all_persistable es -> snd acc = [] ->
+            snd (fold_left (flatten_step pfam mm fuel) es acc) = []).
+  { induction es as [|e es IHes]; intros acc Ha Hs; [exact Hs|]. cbn [fold_left]. apply IHes.
+    - intros x Hx. apply Ha. now right.
+    - pose proof (Ha e (or_introl eq_refl)) as Pe. unfold flatten_step. destruct e as [i|q]; [exact Hs|].
+      cbn in Pe. rewrite Pe. exact Hs. }
+  intros A. now apply G.
+Qed.
+
+(* serialising a restored memo again can never lose an untracked dependency: whatever the memo
+   tables are then, nothing is expanded *)
+Theorem reserialise_loses_nothing mm mm' fuel fuel' edges :
+  lost_untracked pfam mm' fuel' (flatten pfam mm fuel edges) = false.
+Proof.
+  unfold lost_untracked. now rewrite (flatten_full_persistable mm' fuel' _ (flatten_persistable mm fuel edges)).
+Qed.
+
+End Persistable.
